@@ -1,33 +1,32 @@
 (* Wire encoding between the Go harness and the extracted Coq model.
    Compiled once per property against that property's extracted Model. *)
 module BZ = Z            (* zarith, before Model shadows Z *)
-open Model
 
-let rec pos_of_bz (n : BZ.t) : positive =
-  if BZ.equal n BZ.one then XH
-  else if BZ.is_even n then XO (pos_of_bz (BZ.shift_right n 1))
-  else XI (pos_of_bz (BZ.shift_right n 1))
+let rec pos_of_bz (n : BZ.t) : Model.positive =
+  if BZ.equal n BZ.one then Model.XH
+  else if BZ.is_even n then Model.XO (pos_of_bz (BZ.shift_right n 1))
+  else Model.XI (pos_of_bz (BZ.shift_right n 1))
 
-let z_of_bz (n : BZ.t) : z =
+let z_of_bz (n : BZ.t) : Model.z =
   let s = BZ.sign n in
-  if s = 0 then Z0 else if s > 0 then Zpos (pos_of_bz n) else Zneg (pos_of_bz (BZ.neg n))
+  if s = 0 then Model.Z0 else if s > 0 then Model.Zpos (pos_of_bz n) else Model.Zneg (pos_of_bz (BZ.neg n))
 
 let rec bz_of_pos = function
-  | XH -> BZ.one
-  | XO p -> BZ.shift_left (bz_of_pos p) 1
-  | XI p -> BZ.succ (BZ.shift_left (bz_of_pos p) 1)
+  | Model.XH -> BZ.one
+  | Model.XO p -> BZ.shift_left (bz_of_pos p) 1
+  | Model.XI p -> BZ.succ (BZ.shift_left (bz_of_pos p) 1)
 
-let bz_of_z = function Z0 -> BZ.zero | Zpos p -> bz_of_pos p | Zneg p -> BZ.neg (bz_of_pos p)
+let bz_of_z = function Model.Z0 -> BZ.zero | Model.Zpos p -> bz_of_pos p | Model.Zneg p -> BZ.neg (bz_of_pos p)
 
 let z_of_string s = z_of_bz (BZ.of_string s)
 let string_of_z z = BZ.to_string (bz_of_z z)
 let z_of_int n = z_of_bz (BZ.of_int n)
 let int_of_z z = BZ.to_int (bz_of_z z)
 
-let rec nat_of_int n = if n <= 0 then O else S (nat_of_int (n - 1))
+let rec nat_of_int n = if n <= 0 then Model.O else Model.S (nat_of_int (n - 1))
 
 (* byte strings: lowercase hex, "-" for the empty string *)
-let bytes_of_hex (s : string) : z list =
+let bytes_of_hex (s : string) : Model.z list =
   if s = "-" then [] else begin
     let n = String.length s / 2 in
     let rec go i acc = if i < 0 then acc
@@ -35,7 +34,7 @@ let bytes_of_hex (s : string) : z list =
     go (n - 1) []
   end
 
-let hex_of_bytes (l : z list) : string =
+let hex_of_bytes (l : Model.z list) : string =
   if l = [] then "-" else begin
     let b = Buffer.create 64 in
     List.iter (fun z ->
@@ -57,6 +56,19 @@ let serve (handle : string list -> string) =
     while true do
       let line = input_line stdin in
       let ans = try handle (split_ws line) with
+        | Failure m -> "driver-error " ^ m
+        | Not_found -> "driver-error not-found"
+        | Invalid_argument m -> "driver-error " ^ m in
+      print_string ans; print_char '\n'
+    done
+  with End_of_file -> ()
+
+(* same, but the handler gets the raw line split at TAB characters *)
+let serve_tabs (handle : string list -> string) =
+  try
+    while true do
+      let line = input_line stdin in
+      let ans = try handle (String.split_on_char '\t' line) with
         | Failure m -> "driver-error " ^ m
         | Not_found -> "driver-error not-found"
         | Invalid_argument m -> "driver-error " ^ m in
